@@ -50,6 +50,7 @@ type Task struct {
 	wake      chan struct{}
 	Label     string
 	blockedOn sync.Locker
+	rblocked  bool // blockedOn is wanted for reading
 	stepSleep int
 	parked    bool
 	done      bool
@@ -66,6 +67,7 @@ type Sched struct {
 	parkCh   chan *Task
 	held     map[sync.Locker]*Task
 	heldMu   sync.Mutex
+	rwStates map[sync.Locker]*rwState
 	live     int
 	Steps    int
 	Sticky   int // probability (percent) of continuing the task that ran last
@@ -254,17 +256,20 @@ func Lock(m sync.Locker, label string) {
 	}
 	for {
 		t.blockedOn = nil
-		if h := s.holder(m); h != nil { // (also h == t: Go mutexes are not reentrant)
+		if !s.writable(m, t, true) { // (also when t itself holds it: Go mutexes are not reentrant)
 			t.blockedOn = m
 		}
 		t.free = 0
 		s.park(t, label)
-		if s.holder(m) == nil {
+		if s.writable(m, t, false) {
 			break
 		}
 	}
 	s.heldMu.Lock()
 	s.held[m] = t
+	if st := s.rwStates[m]; st != nil {
+		delete(st.waiting, t)
+	}
 	s.heldMu.Unlock()
 	t.blockedOn = nil
 	m.Lock() // cannot block: every holder registers here
@@ -284,6 +289,86 @@ func Unlock(m sync.Locker, label string) {
 	m.Unlock()
 }
 
+// RWLocker is what sync.RWMutex offers.
+type RWLocker interface {
+	sync.Locker
+	RLock()
+	RUnlock()
+}
+
+type rwState struct {
+	readers map[*Task]int
+	waiting map[*Task]bool // writers waiting: they block new readers, as in sync.RWMutex
+}
+
+func (s *Sched) rw(m sync.Locker) *rwState {
+	if s.rwStates == nil {
+		s.rwStates = map[sync.Locker]*rwState{}
+	}
+	st := s.rwStates[m]
+	if st == nil {
+		st = &rwState{readers: map[*Task]int{}, waiting: map[*Task]bool{}}
+		s.rwStates[m] = st
+	}
+	return st
+}
+
+// RLock replaces X.RLock(): readers share the lock, but - as with sync.RWMutex - a
+// waiting writer blocks new readers (which is what makes recursive read locking deadlock).
+func RLock(m RWLocker, label string) {
+	if mode.Load() != ModeSim {
+		m.RLock()
+		return
+	}
+	s, t := current()
+	if t == nil {
+		m.RLock()
+		return
+	}
+	for {
+		s.heldMu.Lock()
+		st := s.rw(m)
+		blocked := s.held[m] != nil || len(st.waiting) > 0
+		s.heldMu.Unlock()
+		t.blockedOn = nil
+		if blocked {
+			t.blockedOn = m
+			t.rblocked = true
+		}
+		t.free = 0
+		s.park(t, label)
+		s.heldMu.Lock()
+		ok := s.held[m] == nil && len(st.waiting) == 0
+		if ok {
+			st.readers[t]++
+		}
+		s.heldMu.Unlock()
+		if ok {
+			break
+		}
+	}
+	t.blockedOn, t.rblocked = nil, false
+	m.RLock() // cannot block: no writer holds or waits
+}
+
+// RUnlock replaces X.RUnlock().
+func RUnlock(m RWLocker, label string) {
+	if mode.Load() == ModeSim {
+		if s, t := current(); t != nil {
+			s.heldMu.Lock()
+			st := s.rw(m)
+			if st.readers[t] > 0 {
+				st.readers[t]--
+				if st.readers[t] == 0 {
+					delete(st.readers, t)
+				}
+			}
+			s.heldMu.Unlock()
+		}
+	}
+	m.RUnlock()
+}
+
 // Spawn replaces `go f(...)` in instrumented files.
 func Spawn(label string, fn func()) {
 	if mode.Load() == ModeSim {
@@ -293,6 +378,34 @@ func Spawn(label string, fn func()) {
 		}
 	}
 	go fn()
+}
+
+// writable: no writer holds m and no reader holds it. With register, a task that finds the
+// lock taken is recorded as a waiting writer (blocks new readers).
+func (s *Sched) writable(m sync.Locker, t *Task, register bool) bool {
+	s.heldMu.Lock()
+	defer s.heldMu.Unlock()
+	free := s.held[m] == nil
+	if st := s.rwStates[m]; st != nil && len(st.readers) > 0 {
+		free = false
+	}
+	if !free && register {
+		s.rw(m).waiting[t] = true
+	}
+	return free
+}
+
+// readable: no writer holds m and no writer waits for it.
+func (s *Sched) readable(m sync.Locker) bool {
+	s.heldMu.Lock()
+	defer s.heldMu.Unlock()
+	if s.held[m] != nil {
+		return false
+	}
+	if st := s.rwStates[m]; st != nil && len(st.waiting) > 0 {
+		return false
+	}
+	return true
 }
 
 func (s *Sched) holder(m sync.Locker) *Task {
@@ -336,7 +449,11 @@ func (s *Sched) runnable() []*Task {
 			continue
 		}
 		if t.blockedOn != nil {
-			if h := s.holder(t.blockedOn); h != nil {
+			if t.rblocked {
+				if !s.readable(t.blockedOn) {
+					continue
+				}
+			} else if !s.writable(t.blockedOn, t, false) {
 				continue
 			}
 		}
